@@ -103,9 +103,9 @@ CT_VCF = "text/vcard; charset=utf-8"
 
 
 def content_type_for(name):
-    if name.endswith(".ics"):
+    if name.lower().endswith(".ics"):
         return CT_ICS
-    if name.endswith(".vcf"):
+    if name.lower().endswith(".vcf"):
         return CT_VCF
     return "application/octet-stream"
 
